@@ -37,7 +37,13 @@ def payloads(tier, seed):
     for f in range(4):
         pool = (CURATED if f < 2 else NUMS) + short
         if f < 2:
-            pool = pool + ["10.0.0.2" + s for s in (short if tier != "quick" else short[:250])]
+            # a valid dotted quad of every length 7..15 followed by attack text (a validator that looks only at a
+            # bounded prefix is exposed by the longest ones)
+            quads = ["1.2.3.4", "10.0.0.2", "10.10.0.2", "10.10.10.2", "10.10.10.20", "10.10.10.200", "10.10.100.200",
+                     "10.100.100.200", "192.168.100.200", "100.100.100.100"]
+            tails = short if tier != "quick" else short[:120]
+            pool = pool + [q + s for q in quads for s in tails if s] + \
+                [q + t for q in quads for t in (";id", " ;id", "`id`", "$(id)", "|id", "\nid", " x", "x", ".1", "0")]
         for s in pool:
             if "-" in s:
                 continue
